@@ -148,6 +148,11 @@ impl Submissions {
         log::trace!(waker:?; "adding future waiting on submission slot");
         let shared = &*self.shared;
         lock(&shared.blocked_futures).push(waker);
+        // The queue may have been drained (and the blocked futures woken)
+        // between the failed attempt to add the submission and the waker being
+        // registered above, in which case nobody would wake us. So check
+        // again now that the waker is registered.
+        shared.wake_blocked_futures();
     }
 
     pub(crate) fn shared(&self) -> &Shared {
